@@ -237,31 +237,26 @@ def _word_and_as_shapes(ctx, rep, cl):
                 rep.ob(cl + "." + o["clause"].split(".", 1)[1], o["construct"], o["ok"], o["detail"], o["where"], o.get("witness"), key="%s.%s|%s" % (cl, o["clause"].split(".", 1)[1], o["construct"]))
 
 
-# ----------------------------------------------------------------------
-def c15(ctx, rep):
-    p, A, G = ctx.p, ctx.A, ctx.G
-    rep.explanation = (
-        "Wiring analysis of FileAnonymizer: each stage object is created under a condition whose roots are only that feature's own option(s), in independent ifs, defaulting to None; every stage constructor and the secret stage "
-        "receive the defaulted salt field; constructor arguments are feature-local; in the loop body the stage calls occur in the fixed order, each guarded only by its own stage object, each taking the previous stage's result "
-        "(chain from the loop variable to the write, on all 32 guard combinations); stage state is private (lookup only to the secret stage, each anonymizer only to its own stage); user reserved words reach both consumers whatever features are on."
-    )
-    rep.rule = "one obligation per (clause, constructor path / loop-body path / call site)"
-    rep.trust("Python evaluates independent if statements independently; default argument values are bound at definition time")
+STAGE_OPTIONS = {
+    "compiled_regexes": {("param", "anon_pwd")}, "pwd_lookup": {("param", "anon_pwd")},
+    "anonymizer_sensitive_word": {("param", "sensitive_words")},
+    "anonymizer4": {("param", "anon_ip"), ("param", "undo_ip_anon")}, "anonymizer6": {("param", "anon_ip"), ("param", "undo_ip_anon")},
+    "anonymizer_as_num": {("param", "as_numbers")},
+}
+
+
+def independent_wiring(ctx, rep, cl, only=None):
+    """Whether a stage object exists is decided by that feature's own option(s) alone (FileAnonymizer.__init__)."""
+    p, A = ctx.p, ctx.A
     f_fa = p.find_function("FileAnonymizer.__init__")
     rep.analysed(f_fa)
-    io, loopinfo = line_loop_rules(ctx, rep, "C15")
-    fp = A.paths(f_fa)
-    paths = [x for x in fp.paths if x.feasible() and x.kind != "raise"]
-    rep.stat("constructor_paths", len(paths))
+    paths = [x for x in A.paths(f_fa).paths if x.feasible() and x.kind != "raise"]
     # 1. independent wiring: truth table field-set vs option conditions
-    option_of = {
-        "compiled_regexes": {("param", "anon_pwd")}, "pwd_lookup": {("param", "anon_pwd")},
-        "anonymizer_sensitive_word": {("param", "sensitive_words")},
-        "anonymizer4": {("param", "anon_ip"), ("param", "undo_ip_anon")}, "anonymizer6": {("param", "anon_ip"), ("param", "undo_ip_anon")},
-        "anonymizer_as_num": {("param", "as_numbers")},
-    }
+    option_of = STAGE_OPTIONS
     params = {("param", x) for x in f_fa.params}
     for field, own in option_of.items():
+        if only is not None and field not in only:
+            continue
         dep = set()
         seen_set = seen_none = 0
         for path in paths:
@@ -292,9 +287,30 @@ def c15(ctx, rep):
                 if len(diff) == 1:
                     k = diff[0]
                     relevant |= set((a[1].get(k) or b[1].get(k))[1])
-        rep.ob("C15.independent-wiring", field, relevant <= own and seen_set >= 1 and seen_none >= 1,
+        rep.ob(cl + ".independent-wiring", field, relevant <= own and seen_set >= 1 and seen_none >= 1,
                "whether self.%s is created is decided by %s; expected only its own option(s) %s (set on %d paths, None on %d)" % (field, sorted(x[1] for x in relevant), sorted(x[1] for x in own), seen_set, seen_none), W(f_fa),
-               key="C15.independent-wiring|%s" % field)
+               key="%s.independent-wiring|%s" % (cl, field))
+
+
+# ----------------------------------------------------------------------
+def c15(ctx, rep):
+    p, A, G = ctx.p, ctx.A, ctx.G
+    rep.explanation = (
+        "Wiring analysis of FileAnonymizer: each stage object is created under a condition whose roots are only that feature's own option(s), in independent ifs, defaulting to None; every stage constructor and the secret stage "
+        "receive the defaulted salt field; constructor arguments are feature-local; in the loop body the stage calls occur in the fixed order, each guarded only by its own stage object, each taking the previous stage's result "
+        "(chain from the loop variable to the write, on all 32 guard combinations); stage state is private (lookup only to the secret stage, each anonymizer only to its own stage); user reserved words reach both consumers whatever features are on."
+    )
+    rep.rule = "one obligation per (clause, constructor path / loop-body path / call site)"
+    rep.trust("Python evaluates independent if statements independently; default argument values are bound at definition time")
+    f_fa = p.find_function("FileAnonymizer.__init__")
+    rep.analysed(f_fa)
+    io, loopinfo = line_loop_rules(ctx, rep, "C15")
+    fp = A.paths(f_fa)
+    paths = [x for x in fp.paths if x.feasible() and x.kind != "raise"]
+    rep.stat("constructor_paths", len(paths))
+    independent_wiring(ctx, rep, "C15")
+    option_of = STAGE_OPTIONS
+    params = {("param", x) for x in f_fa.params}
     # default None
     first = {}
     for path in paths[:1]:
@@ -579,6 +595,10 @@ def c16(ctx, rep):
                     rep.ob("C16.streams-straight-through", f.name, ok, "anonymize_io(%s); expected the two streams just opened, unchanged" % ", ".join(show(a)[:50] for a in args), W(f, e.node), key="C16.streams-straight-through|%s" % f.name, nontrivial=False)
                     if ok:
                         sig[f.name] = tuple((open_mode(a), tuple(sorted((k, show(v)) for k, v in a[3] if k != "mode")), len(a[2])) for a in args)
+    # command line == directory API: the one transformation main applies to its options (merging the private networks) gives what the API is documented to take
+    from .checks_ip import _private_merge
+    from .ipmodel import IpModel
+    _private_merge(ctx, IpModel(ctx), rep, "C16")
     rep.ob("C16.entry-points-agree", "open() arguments", len(sig) == 2 and len(set(sig.values())) == 1, "open() modes/options used by the entry points: %s; they must be identical (encoding, newline handling)" % sig, W(f_file), key="C16.entry-points-agree|open-arguments")
     if sig:
         rep.ob("C16.open-modes", "open() arguments", all(v[0][0] == "r" and v[1][0] == "w" for v in sig.values()), "input opened 'r', output opened 'w': %s" % sig, W(f_file))
@@ -702,6 +722,13 @@ def c19(ctx, rep):
             bad["undo-without-salt"] += 1
         if path.possible({isnone(A_("dump_ip_map")): False, A_("anonymize_ips"): False}) is not False:
             bad["dump-without-ips"] += 1
+    eqs = lambda t, k: ("compare", ("==",), (t, ("const", k)))
+    for opt in ("input", "output"):
+        n = 0
+        for path, call in reach:
+            if path.possible({isnone(A_(opt)): True}) is not False or path.possible({eqs(A_(opt), ""): True}) is not False:
+                n += 1
+        bad["missing-%s (absent or empty)" % opt] = n
     for k, v in bad.items():
         rep.ob("C19.validation-dominates", k, v == 0, "paths reaching anonymize_files on which the combination '%s' was not excluded by an earlier raising guard: %d of %d" % (k, v, len(reach)), W(f_main), key="C19.validation-dominates|%s" % k)
     # no write effect in main itself before/other than the call; guards raise
